@@ -126,7 +126,12 @@ pub fn print_transcript(arg: &str) -> i32 {
     let Some(pos) = v["fen"].as_str().and_then(Pos::from_fen) else { return 2 };
     let seed = v["seed"].as_u64().unwrap_or(0);
     let depth = v["depth"].as_u64().unwrap_or(1) as u8;
-    match transcript_sync(&pos, seed, depth) {
+    let t = if v["public"].as_bool().unwrap_or(false) {
+        transcript_public(&pos, seed, depth as usize)
+    } else {
+        transcript_sync(&pos, seed, depth)
+    };
+    match t {
         Ok(t) => {
             for l in t {
                 println!("{}", l);
@@ -205,6 +210,27 @@ impl Prop for SameSeedPublic {
                 "two Searcher::analyze runs of '{}' with seed {} and depth {} (fresh memory) differ: {:?} vs {:?}",
                 pos.fen(), case.seed, case.depth, a, b
             ));
+        }
+        // every third pair is also compared with a freshly started process (catches state that
+        // survives inside one process: statics, thread-locals, lazily initialised tables)
+        if case.seed % 3 == 0 {
+            let exe = std::env::current_exe().map_err(|e| e.to_string())?;
+            let arg = json!({"fen": pos.fen(), "seed": case.seed, "depth": case.depth, "public": true}).to_string();
+            let out = std::process::Command::new(exe)
+                .args(["C19", "--transcript", &arg])
+                .output()
+                .map_err(|e| format!("cannot spawn second process: {}", e))?;
+            if !out.status.success() {
+                return Err(format!("second process failed for '{}': {}", pos.fen(), String::from_utf8_lossy(&out.stderr)));
+            }
+            let c: Vec<String> = String::from_utf8_lossy(&out.stdout).lines().map(|l| l.to_string()).collect();
+            loc.class("compared_with_fresh_process");
+            if a != c {
+                return Err(format!(
+                    "Searcher::analyze of '{}' with seed {} and depth {} (fresh memory) gives {:?} in this process but {:?} in a freshly started process",
+                    pos.fen(), case.seed, case.depth, a, c
+                ));
+            }
         }
         loc.nontrivial(&(pos.fen4(), case.seed, case.depth, "public"));
         if distinct_first_moves(&a) >= 2 {
@@ -291,7 +317,7 @@ pub fn plan(ctx: &Ctx) -> Plan {
                (best lines, evaluations, depth, node counts, saturation) of two runs must be identical - back to back, \
                with an unrelated search in between, and (3% of cases) with the second run in a freshly spawned process; \
                (b) the public Searcher::analyze with a fresh default (1 GiB) memory, depth 1-3 (one worker below \
-               iteration depth 3): two runs identical; (c) the CLI: weechess evaluate --fen F --max-depth d --seed s run \
+               iteration depth 3): two runs identical, and every third pair also identical to a run in a freshly started process; (c) the CLI: weechess evaluate --fen F --max-depth d --seed s run \
                twice, best-move lines and depth=/nodes= fields identical (time/nps ignored). Non-trivial = distinct \
                (position, seed, depth) whose event sequence shows at least two different best first moves across \
                iterations (the jitter mattered), and every public / CLI pair.",
